@@ -7,7 +7,119 @@ package main
 // outcome class is recorded.  Coq term of a case:
 //     mkCase "<api>" [facts] "<skel>" [env] "<obs>"
 //
-//C09-DOC-PLACEHOLDER
+// FIELDS
+//   api   exported function or method that was called (Go style; "hash." / "random." prefix for those
+//         packages; methods as "<type>.<Method>" with the concrete type of the sources).
+//   facts integer facts about the arguments and the situation (listed below, API by API).  Convention:
+//         the fact named after a byte-slice / string / list parameter is its LENGTH, after an integer
+//         or enum parameter its VALUE (never clamped: MinInt64 is (-9223372036854775808)), after an
+//         interface / callback parameter 1 (non-nil) or 0 (nil).  Derived facts contain a dot.
+//         ("nil.iface", 1) is present iff a nil interface value (key, hasher, processor) or nil callback
+//         was passed, directly or as a list element: documented exception, the call may panic.
+//         Facts listed under "post:" are observed AFTER the call and come last.
+//   skel  key of Generated/RiskSkel.v (risk_table) of the function that validates the call, "" if none.
+//   env   known entries of that skeleton's environment: slice name -> length, integer name -> value,
+//         interface name -> 0/1, receiver fields ("s.size", "s.running", "pk.isIdentity" ...), and oracle
+//         entries whose value is certain ("ok:=sk.(*prKeyBLSBLS12381)" = result of the type assertion,
+//         "msg[0]" = first message byte, "nil?s.thresholdSignature").  Only entries known for sure.
+//   obs   "ok" | "true" | "false" | "err-invalid-inputs" | "err-invalid-signature" | "err-not-bls-key" |
+//         "err-nil-hasher" | "err-hasher-size" | "err-empty-list" | "err-duplicated-signer" |
+//         "err-not-enough-shares" | "err-dkg-failure" | "err-dkg-transition" | "err-other" |
+//         "PANIC: <message, double quotes removed, non-ASCII replaced by ?, at most 80 characters>".
+//         The error predicates are tried in the order above.  Functions without error or verdict: "ok".
+//         "PANIC: (setup) ..." = a panic while building valid material or bringing an instance to its phase
+//         (never expected).
+//
+// COMMON DERIVED FACTS
+//   list of public keys under parameter P (pks, keys, keysToRemove, sharePublicKeys):
+//       (P, n) (P.nonbls, number of elements that are not *pubKeyBLSBLS12381: ECDSA keys and nil elements)
+//       (P.firstnonbls, index of the first one or -1) (P.nil, number of nil elements)
+//       (P.identity, number of identity BLS keys)
+//   list of signatures under parameter P (sigs, shares):
+//       (P, n) (P.badlen, number of elements whose length is not 48) (P.firstbad, index of the first or -1)
+//       (P.nil, number of nil elements)
+//   hasher parameter P (kmac, alg): (P, 0|1) (P.size, Size() of the hasher, -1 for nil)
+//   "X.genuine" = 1 iff X is, at its exact length, a signature really produced by the matching private
+//       key(s) on the same data with the same hasher (so that a "true" verdict is legitimate);
+//       a "true" verdict with X.genuine = 0 is only legitimate for SignatureFormatCheck-like predicates.
+//
+// API BY API (api: facts | skel [env])
+//   SigningAlgorithm.String: f | "SigningAlgorithm.String" [f]
+//   hash.HashingAlgorithm.String: h | same [h]
+//   E2PolynomialImages (nil, nil only): out A | same [out A]
+//   DecodePrivateKey / DecodePublicKey: algo input;  DecodePublicKeyCompressed: algo data
+//       skel algo=1: "blsBLS12381Algo.decodePrivateKey" [privateKeyBytes] / ".decodePublicKey" [publicKeyBytes] /
+//       ".decodePublicKeyCompressed" [publicKeyBytes];  algo=2,3: "" [];  otherwise the API itself [algo input|data]
+//   GeneratePrivateKey: algo seed | algo=1 "blsBLS12381Algo.generatePrivateKey" [ikm]; 2,3
+//       "ecdsaAlgo.generatePrivateKey" [seed]; otherwise "GeneratePrivateKey" [algo seed]
+//   SignatureFormatCheck: algo s s.genuine | same [algo s]
+//   prKeyBLSBLS12381.Sign: key.algo(=1) data kmac kmac.size | same [data kmac]
+//   prKeyECDSA.Sign: key.algo(2|3) data alg alg.size | same [data alg]
+//   pubKeyBLSBLS12381.Verify: key.algo s data kmac kmac.size s.genuine pk.isIdentity | same [s data kmac pk.isIdentity]
+//   pubKeyECDSA.Verify: key.algo sig data alg alg.size sig.genuine pk.isIdentity(=0) | same [sig data alg]
+//   BLSGeneratePOP: sk.nonbls | same ["ok:=sk.(*prKeyBLSBLS12381)"]
+//   BLSVerifyPOP: pk.nonbls pk.isIdentity s s.genuine | same [s "ok:=pk.(*pubKeyBLSBLS12381)"]
+//   AggregateBLSSignatures: sigs.* | same [sigs]
+//   AggregateBLSPrivateKeys: keys keys.nonbls keys.firstnonbls keys.nil | same [keys]
+//   AggregateBLSPublicKeys: keys.* | same [keys]
+//   RemoveBLSPublicKeys: aggKey.nonbls keysToRemove.* | same [keysToRemove "ok:=aggKey.(*pubKeyBLSBLS12381)"]
+//   VerifyBLSSignatureOneMessage: pks.* s message kmac kmac.size s.genuine | same [pks s message kmac]
+//       (s.genuine: aggregate of the genuine signatures of all non-identity keys, all keys being BLS, hasher "xof")
+//   VerifyBLSSignatureManyMessages: pks.* s messages kmac(=number of hashers) kmac.nil kmac.badsize
+//       (non-nil, Size() != 128) kmac.firstbad (first nil or bad-size hasher, -1) s.genuine | same [pks s messages kmac]
+//   BatchVerifyBLSSignaturesOneMessage: pks.* sigs.* message kmac kmac.size; post: ret (length of the returned
+//       slice) ret.true (number of true verdicts) | same [pks sigs message kmac].  obs "true" iff no error and
+//       all verdicts true (and at least one), "false" iff no error otherwise.
+//   IsBLSSignatureIdentity: s s.identity (1 iff s = c0 00^47) | same [s]
+//   SPOCKProve: sk.nonbls data kmac kmac.size | same [data kmac]
+//   SPOCKVerifyAgainstData: pk.nonbls pk.isIdentity proof data kmac kmac.size proof.genuine | same [proof data kmac]
+//   SPOCKVerify: pk1.nonbls pk2.nonbls pk1.isIdentity pk2.isIdentity proof1 proof2 proofs.genuine | same
+//       [proof1 proof2 "ok1:=pk1.(*pubKeyBLSBLS12381)" "ok2:=..." blsPk1.isIdentity blsPk2.isIdentity]
+//   BLSThresholdKeyGen: size threshold seed | same [size threshold seed]
+//   EnoughShares: threshold sharesNumber | same [threshold sharesNumber]
+//   BLSReconstructThresholdSignature: size threshold shares.* signers shares.badlen.head (bad lengths among
+//       positions i <= threshold) signers.firstoor (index of the first signer outside [0,size), -1)
+//       signers.firstdup (index of the first repeated signer value, -1) | same [size threshold shares signers]
+//   NewBLSThresholdSignatureInspector: groupPublicKey.nonbls sharePublicKeys.* threshold message dsTag |
+//       same [sharePublicKeys threshold message dsTag]
+//   NewBLSThresholdSignatureParticipant: the same + myIndex myPrivateKey.nonbls myPrivateKey.match (1 iff the
+//       private key is the one of sharePublicKeys[myIndex]) | same [... myIndex "ok:=myPrivateKey.(*prKeyBLSBLS12381)"]
+//   blsThresholdSignatureInspector.{VerifyShare,HasShare,TrustedAdd,VerifyAndAdd,ThresholdSignature,EnoughShares}
+//       (valid inspector of a (size, threshold) group; "pre" shares were added with TrustedAdd before the call):
+//       size threshold pre (number of shares in the pool) pre.badlen (of which length != 48) pre.forged (48 bytes
+//       but not the genuine share of that signer) [orig pre.has (1 iff orig is in range and in the pool)]
+//       [share share.genuine (genuine share of signer orig)] |
+//       same [s.size s.threshold s.publicKeyShares s.shares orig share] (ThresholdSignature: + s.thresholdSignature = 0,
+//       "nil?s.thresholdSignature" = 1).  VerifyAndAdd: the verdict is the FIRST boolean.
+//   hash.NewKMAC_128: key customizer outputSize | same [key customizer outputSize]
+//   hash.ComputeSHA3_256 / hash.ComputeSHA2_256: result(=32) data | same [result data]
+//   hash.<type>.<Write|ComputeHash|SumHash|Reset|Size>, type in sha2_256Algo, sha2_384Algo, spongeState (SHA3-256,
+//       SHA3-384, Keccak-256), kmac128; the observed call is the last of a sequence on a fresh hasher:
+//       algo (HashingAlgorithm of the hasher) size (Size()) pre (number of earlier calls) pre.sum (SumHash calls since
+//       the last Reset) pre.compute (ComputeHash calls) pre.written (bytes written since the last Reset/ComputeHash)
+//       [p (Write) | data (ComputeHash)] | "hash.<type>.<Method>" when it has a skeleton, else "" ;
+//       env [p|data, k.outputSize (kmac128), d.rate/d.outputLen or s.rate/s.outputLen (spongeState)]
+//   random.NewChacha20PRG: seed customizer | same [seed customizer]
+//   random.RestoreChacha20PRG: stateBytes counter (LE64 of bytes 44..51 when 52 bytes, else -1) | same [stateBytes]
+//   random.chachaCore.Read / random.genericPRG.{UintN,Permutation,SubPermutation,Shuffle,Samples} on a valid PRG:
+//       restored (1 iff built with RestoreChacha20PRG) counter (bytes already output) then
+//       Read: buffer | [buffer c.bytesCounter];  UintN: n (unsigned) | [n];  Permutation: n | [n];
+//       SubPermutation: n m | [n m];  Shuffle: n swap | [n swap];  Samples: n m swap | [n m swap]
+//   NewFeldmanVSS / NewFeldmanVSSQual: size threshold myIndex dealerIndex processor | "newDKGCommon"
+//       [size threshold myIndex dealerIndex processor];  NewJointFeldman: size threshold myIndex processor |
+//       "newDKGCommon" [... dealerIndex = 0]
+//   DKG scenarios: <type>.<HandleBroadcastMsg|HandlePrivateMsg|ForceDisqualify|Start|End|NextTimeout>, type in
+//       feldmanVSSstate (proto 0), feldmanVSSQualState (1; its Start is feldmanVSSstate.Start), JointFeldmanState (2);
+//       plain Feldman VSS NextTimeout is dkgCommon.NextTimeout:
+//       proto size threshold myIndex dealerIndex (-1 for Joint) phase (0 before Start, 1 started, 2 one timeout,
+//       3 two timeouts, 4 after End) warm (1 iff the honest vector and share of the dealer(s) were delivered right
+//       after Start) pre (number of extra calls made after reaching the phase, before the observed call: the
+//       two-call scenarios) running (Running() just before the call) then
+//       handlers: orig msg tag (first byte, -1 if empty) idx (second byte, -1) bcast (1 HandleBroadcastMsg, 0 private);
+//       ForceDisqualify: participant;  Start: seed;
+//       post: cb.privatesend cb.broadcast cb.disqualify cb.flag (DKGProcessor callbacks made by THAT call)
+//       | same [s.size s.threshold s.myIndex, s.dealerIndex s.running (proto 0,1) or s.jointRunning (proto 2),
+//       orig msg "msg[0]" | participant | seed]
 
 import (
 	"encoding/binary"
